@@ -89,6 +89,88 @@ pub mod unit_ess {
         assert((a * a * (w - s / c)) / (a * a * v) == (w - s / c) / v) by(nonlinear_arith) requires a * a != 0real, v != 0real;
     }
 
+    // ---- C12 corollary: time reversal x_t -> x_{n-1-t} (real arithmetic) ------------------------------------
+    /// sum over i < k of f(i)
+    pub open spec fn gsum(f: spec_fn(int) -> real, k: int) -> real decreases k {
+        if k <= 0 { 0real } else { gsum(f, k - 1) + f(k - 1) }
+    }
+    pub proof fn lemma_gsum_ext(f: spec_fn(int) -> real, g: spec_fn(int) -> real, k: int)
+        requires forall |i: int| 0 <= i < k ==> #[trigger] g(i) == f(i)
+        ensures gsum(g, k) == gsum(f, k)
+        decreases k
+    {
+        if k > 0 { lemma_gsum_ext(f, g, k - 1); }
+    }
+    pub proof fn lemma_gsum_shift(f: spec_fn(int) -> real, g: spec_fn(int) -> real, k: int)
+        requires k >= 0, forall |i: int| 0 <= i < k ==> #[trigger] g(i) == f(i + 1)
+        ensures gsum(f, k + 1) == f(0) + gsum(g, k)
+        decreases k
+    {
+        if k > 0 {
+            lemma_gsum_shift(f, g, k - 1);
+            assert(g(k - 1) == f(k));
+            assert(gsum(f, k + 1) == gsum(f, k) + f(k));
+            assert(gsum(g, k) == gsum(g, k - 1) + g(k - 1));
+        } else {
+            assert(gsum(f, 1) == gsum(f, 0) + f(0));
+            assert(gsum(f, 0) == 0real && gsum(g, 0) == 0real);
+        }
+    }
+    /// a finite sum read backwards is the same sum
+    pub proof fn lemma_gsum_rev(f: spec_fn(int) -> real, g: spec_fn(int) -> real, k: int)
+        requires k >= 0, forall |i: int| 0 <= i < k ==> #[trigger] g(i) == f(k - 1 - i)
+        ensures gsum(g, k) == gsum(f, k)
+        decreases k
+    {
+        if k > 0 {
+            let f1 = |i: int| f(i + 1);
+            assert forall |i: int| 0 <= i < k - 1 implies #[trigger] g(i) == f1(k - 2 - i) by { assert(g(i) == f(k - 1 - i)); }
+            lemma_gsum_rev(f1, g, k - 1);
+            lemma_gsum_shift(f, f1, k - 1);
+            assert(g(k - 1) == f(0));
+        }
+    }
+    pub open spec fn term1(x: Seq<Fl>) -> spec_fn(int) -> real { |i: int| rv(x[i]) }
+    pub open spec fn term2(x: Seq<Fl>, m: real, lag: int) -> spec_fn(int) -> real { |t: int| (rv(x[t]) - m) * (rv(x[t + lag]) - m) }
+    pub proof fn lemma_rsum_is_gsum(x: Seq<Fl>, k: int)
+        ensures rsum(x, k) == gsum(term1(x), k)
+        decreases k
+    {
+        if k > 0 { lemma_rsum_is_gsum(x, k - 1); }
+    }
+    pub proof fn lemma_lagsum_is_gsum(x: Seq<Fl>, m: real, lag: int, k: int)
+        ensures lagsum(x, m, lag, k) == gsum(term2(x, m, lag), k)
+        decreases k
+    {
+        if k > 0 { lemma_lagsum_is_gsum(x, m, lag, k - 1); }
+    }
+    /// y is x read backwards (values compared as reals)
+    pub open spec fn reversed(x: Seq<Fl>, y: Seq<Fl>) -> bool {
+        y.len() == x.len() && forall |i: int| 0 <= i < x.len() ==> rv(#[trigger] y[i]) == rv(x[x.len() - 1 - i])
+    }
+    /// the biased sample autocovariance at every lag is unchanged by time reversal (same mean, the same products in the
+    /// opposite order); W and var+ do not depend on the order of the draws either (sums over t), hence neither do rho, tau and the ESS
+    pub proof fn lemma_acov_time_reversal(x: Seq<Fl>, y: Seq<Fl>, lag: int)
+        requires x.len() >= 1, 0 <= lag < x.len(), reversed(x, y)
+        ensures rmean(y) == rmean(x), acov(y, lag) == acov(x, lag)      // [C12.autocovariance_unchanged_by_time_reversal]
+    {
+        let n = x.len() as int;
+        lemma_rsum_is_gsum(x, n);
+        lemma_rsum_is_gsum(y, n);
+        assert forall |i: int| 0 <= i < n implies #[trigger] term1(y)(i) == term1(x)(n - 1 - i) by { assert(rv(y[i]) == rv(x[n - 1 - i])); }
+        lemma_gsum_rev(term1(x), term1(y), n);
+        let m = rmean(x);
+        let k = n - lag;
+        lemma_lagsum_is_gsum(x, m, lag, k);
+        lemma_lagsum_is_gsum(y, m, lag, k);
+        assert forall |t: int| 0 <= t < k implies #[trigger] term2(y, m, lag)(t) == term2(x, m, lag)(k - 1 - t) by {
+            assert(rv(y[t]) == rv(x[n - 1 - t]));
+            assert(rv(y[t + lag]) == rv(x[n - 1 - (t + lag)]));
+            let (a, b) = (rv(x[n - 1 - t]) - m, rv(x[k - 1 - t]) - m);
+            assert(a * b == b * a) by(nonlinear_arith);
+        }
+        lemma_gsum_rev(term2(x, m, lag), term2(y, m, lag), k);
+    }
     /// ASSUMED (not decided): the FFT path computes the same autocovariance as the brute-force path
     /// (needs a contract for rustfft and the circular-convolution theorem)
     #[verifier::external_body]
@@ -151,6 +233,34 @@ pub mod unit_ess {
     pub open spec fn rho_real(acovs: Seq<Seq<Seq<Fl>>>, w: real, v: real, t: int, p: int, c: int) -> real {
         1real - (w - ssum(acovs, t, p, c) / (c as real)) / v
     }
+    // ---- C12 corollary: exchanging two chains ------------------------------------------------------------------
+    /// b is a with the slabs i < j exchanged
+    pub open spec fn slabs_swapped(a: Seq<Seq<Seq<Fl>>>, b: Seq<Seq<Seq<Fl>>>, i: int, j: int) -> bool {
+        &&& 0 <= i < j < a.len() && b.len() == a.len() && b[i] == a[j] && b[j] == a[i]
+        &&& forall |k: int| 0 <= k < a.len() && k != i && k != j ==> (#[trigger] b[k]) == a[k]
+    }
+    pub proof fn lemma_ssum_swap(a: Seq<Seq<Seq<Fl>>>, b: Seq<Seq<Seq<Fl>>>, i: int, j: int, t: int, p: int, k: int)
+        requires slabs_swapped(a, b, i, j), 0 <= k <= a.len()
+        ensures
+            k <= i ==> ssum(b, t, p, k) == ssum(a, t, p, k),
+            i < k <= j ==> ssum(b, t, p, k) == ssum(a, t, p, k) - rv(a[i][t][p]) + rv(a[j][t][p]),
+            k > j ==> ssum(b, t, p, k) == ssum(a, t, p, k),
+        decreases k
+    {
+        if k > 0 {
+            lemma_ssum_swap(a, b, i, j, t, p, k - 1);
+            if k - 1 != i && k - 1 != j { assert(b[k - 1] == a[k - 1]); }
+        }
+    }
+    /// the multi-chain autocorrelation estimate averages the per-chain autocovariances: exchanging two chains (their
+    /// autocovariance slabs are exchanged with them) leaves it unchanged; W and var+ are covered by C11's swap lemma
+    pub proof fn lemma_rho_chain_swap_invariant(a: Seq<Seq<Seq<Fl>>>, b: Seq<Seq<Seq<Fl>>>, i: int, j: int, w: real, v: real, t: int, p: int)
+        requires slabs_swapped(a, b, i, j)
+        ensures rho_real(b, w, v, t, p, a.len() as int) == rho_real(a, w, v, t, p, a.len() as int)      // [C12.rho_unchanged_by_permuting_chains]
+    {
+        lemma_ssum_swap(a, b, i, j, t, p, a.len() as int);
+    }
+
     /// Geyer's scheme after k pairs: (sum so far, running minimum, stopped?) — P_k = rho_{2k} + rho_{2k+1}; the sum stops at the
     /// first P_k <= 0; each kept term is min(previous kept term, P_k)
     pub open spec fn geyer(r: Seq<Fl>, k: int) -> (real, real, bool) decreases k {
